@@ -50,7 +50,7 @@ func (g *c19Gen) stmt(indent int, s string) int {
 func (g *c19Gen) block(indent int, n int, inFunc bool) {
 	for i := 0; i < n && g.budget > 0; i++ {
 		g.budget--
-		k := g.tape.Choose(12)
+		k := g.tape.Choose(13)
 		if g.depth >= 2 && (k == 1 || k == 2 || k == 3) {
 			k = 0
 		}
@@ -101,6 +101,8 @@ func (g *c19Gen) block(indent int, n int, inFunc bool) {
 			g.stmt(indent, fmt.Sprintf("defer func(v int) { fmt.Println(\"deferred\", v) }(%d)", g.tape.Choose(9)))
 		case 11:
 			g.stmt(indent, "x = rec(x%4) + x")
+		case 12:
+			g.stmt(indent, "x = spawn(x)")
 		}
 	}
 }
@@ -150,6 +152,29 @@ func GenC19(tape *Tape) *C19Prog {
 	g.stmt(1, "return n * rec(n-1)")
 	g.raw("}")
 	g.raw("")
+	// a goroutine whose function is left by a panic which its own deferred
+	// function recovers; main waits for it, so the execution stays sequential
+	g.raw("func worker(x int, ch, start chan int) {")
+	g.raw("\t<-start")
+	g.raw("\tr := x + 1")
+	g.fline["worker"] = g.stmt(1, "defer func() {")
+	g.stmt(2, "if e := recover(); e != nil {")
+	g.stmt(3, "r = x + 7")
+	g.raw("\t\t}")
+	g.raw("\t\tch <- r")
+	g.raw("\t}()")
+	g.stmt(1, "if x%2 == 0 {")
+	g.stmt(2, "panic(\"w\")")
+	g.raw("\t}")
+	g.stmt(1, "r++")
+	g.raw("}")
+	g.raw("")
+	g.raw("func spawn(x int) int {")
+	g.fline["spawn"] = g.stmt(1, "ch, start := make(chan int), make(chan int)")
+	g.stmt(1, "go worker(x, ch, start)")
+	g.stmt(1, "start <- 1; return <-ch")
+	g.raw("}")
+	g.raw("")
 	nf := tape.Choose(3)
 	for i := 0; i < nf; i++ {
 		name := fmt.Sprintf("f%d", i)
@@ -172,7 +197,7 @@ func GenC19(tape *Tape) *C19Prog {
 	}
 	g.stmt(1, "fmt.Println(\"end\", x)")
 	g.raw("}")
-	funcs := append([]string{"add", "safe", "rec"}, g.funcs...)
+	funcs := append([]string{"add", "safe", "rec", "spawn"}, g.funcs...)
 	return &C19Prog{Src: g.b.String(), Marks: g.marks, FLine: g.fline, Funcs: funcs}
 }
 
@@ -536,6 +561,7 @@ func RunC19(t *testing.T, tape *Tape) *Outcome {
 			// first resume: step with DebugEntry produces an entry event if late
 			// installation is wanted, else plain request by policy
 			first := true
+			gid := 0 // the goroutine to resume: the one that reported the last stop
 			for {
 				var reason interp.DebugEventReason
 				cont := false
@@ -567,9 +593,9 @@ func RunC19(t *testing.T, tape *Tape) *Outcome {
 					requests++
 					var err error
 					if cont {
-						err = dbg.Continue(0)
+						err = dbg.Continue(gid)
 					} else {
-						err = dbg.Step(0, reason)
+						err = dbg.Step(gid, reason)
 					}
 					if err == nil {
 						break
@@ -600,6 +626,7 @@ func RunC19(t *testing.T, tape *Tape) *Outcome {
 						// informational
 					default:
 						stop = true
+						gid = ev.g
 						if ev.reason == interp.DebugEntry && lateBP && validLines == nil {
 							install()
 						}
